@@ -140,8 +140,8 @@ type c12Model struct {
 	hist    []string
 	chooseN map[int]int
 	failMsg string
-	reload  bool // a body started again after a failed attempt
-	hostCnt int  // host.arr[1], one value per VM
+	reload  bool  // a body started again after a failed attempt
+	hostCnt int   // host.arr[1], one value per VM
 	cell    []int // the array cell inside each module's value (copied once per VM, shared by all importers)
 }
 
